@@ -396,7 +396,7 @@ ASSUMPTIONS = [
 def main(tier, seed):
     r = C17Runner("C17", tier, seed)
     r.build(ties=("TieConfig",))
-    can_run = r.impl_exe and r.model_exe and not any(k in ("corr-build", "model-build") for k, _, _ in r.build_problems)
+    can_run = r.can_run()
     extra = {}
     if can_run:
         os.makedirs("/tmp/lhc17", exist_ok=True)
